@@ -57,6 +57,7 @@ type Script struct {
 	// how the server acknowledges the client's requests
 	AckPolicy string  `json:"ackpolicy"`          // immediate shuffle
 	Withhold  int     `json:"withhold,omitempty"` // every n-th acknowledgement is held back until the end
+	DupAcks   int     `json:"dupacks,omitempty"`  // every n-th final acknowledgement is followed by a repeat of an earlier one
 	Apps      [][]AOp `json:"apps"`
 	Srv       []SOp   `json:"srv,omitempty"`
 	Profile   string  `json:"profile"`
@@ -123,6 +124,7 @@ type run struct {
 	connDone                simrt.Event
 	finish                  bool
 	pending                 []pendingAck
+	sentFinal               [][]byte // final acknowledgements sent so far
 	pendingPulse            simrt.Pulse
 	nAcks                   int
 	appState                []int // 0 running 1 barrier 2 finished
@@ -336,6 +338,7 @@ func (r *run) handle(p *refmqtt.Packet) {
 	}
 	if r.sc.AckPolicy == "immediate" && !held {
 		r.serverSend(b)
+		r.repeatOldAck(b)
 		return
 	}
 	r.pending = append(r.pending, pendingAck{b, held})
@@ -373,7 +376,26 @@ func (r *run) acker() {
 		b := r.pending[i].b
 		r.pending = append(r.pending[:i], r.pending[i+1:]...)
 		r.serverSend(b)
+		r.repeatOldAck(b)
 	}
+}
+
+// repeatOldAck notes a final acknowledgement that was just sent and, every
+// DupAcks-th time, sends a byte-identical repeat of an earlier one (a peer may
+// repeat acknowledgements; the request they belong to is long complete).
+func (r *run) repeatOldAck(b []byte) {
+	switch b[0] >> 4 {
+	case refmqtt.PUBACK, refmqtt.PUBCOMP, refmqtt.SUBACK, refmqtt.UNSUBACK:
+	default:
+		return
+	}
+	r.sentFinal = append(r.sentFinal, b)
+	if r.sc.DupAcks <= 0 || len(r.sentFinal)%r.sc.DupAcks != 0 || len(r.sentFinal) < 2 || r.finish {
+		return
+	}
+	old := r.sentFinal[r.s.Choose(len(r.sentFinal)-1)]
+	r.s.Fault("repeated_acknowledgement")
+	r.serverSend(old)
 }
 
 func (r *run) serverOps() {
